@@ -616,7 +616,7 @@ func (w *c02World) op(f []string) string {
 		if sess == nil {
 			return "skip"
 		}
-		tag = w.reap(sess)
+		tag = w.reap(s, sess)
 	case "BX": // lease of the subscriber's MAC expires in the DHCPv4 provider
 		w.prov.VerifC02Age(s.mac.String())
 	default:
@@ -626,11 +626,13 @@ func (w *c02World) op(f []string) string {
 	return fmt.Sprintf("%s %s aaa=%d rec=%s", tag, strings.Join(append(w.replies(mark), "."), ","), len(w.bus.aaa)-amark, w.rec(s))
 }
 
-// reap runs what one tick of cleanupSessions does for this session.  The loop body sits behind a 5-minute ticker and
-// cannot be called, so it is TRANSCRIBED here (internal/ipoe/session.go cleanupSessions; keep in step with it).  The
-// decision whether the session is reaped is the real one: the session's clocks are moved into the past and
-// sessionPastLease / the half-open idle rule are evaluated as the loop does.
-func (w *c02World) reap(sess *SessionState) string {
+// reap lets the REAL cleanupSessions take the session: its clocks are moved into the past and the reaper goroutine is
+// run (under a context of its own) until the session has left the component's table; cancelling the context and waiting
+// for the goroutine to return guarantees that the iteration which removed the session has run to its end (releases,
+// provider lease, checkpoint delete). The file injected for internal/ipoe/session.go is the repository's own, with the
+// ticker period of cleanupSessions shortened (props/C02.py). Whether the session is due is asked of the same rule the
+// loop applies (sessionPastLease / half-open idle); a due session that the reaper does not take within 30 s is reported.
+func (w *c02World) reap(s *c02Sub2, sess *SessionState) string {
 	c := w.comp
 	past := time.Now().Add(-1000 * time.Hour)
 	sess.mu.Lock()
@@ -642,36 +644,34 @@ func (w *c02World) reap(sess *SessionState) string {
 		sess.IPv6BoundAt = past
 	}
 	now := time.Now()
-	var doReap bool
+	var due bool
 	if sess.State == "bound" {
-		doReap = c.sessionPastLease(sess, now)
+		due = c.sessionPastLease(sess, now)
 	} else {
-		doReap = now.Sub(sess.LastSeen) > halfOpenIdleTimeout
+		due = now.Sub(sess.LastSeen) > halfOpenIdleTimeout
 	}
 	sess.mu.Unlock()
-	if !doReap {
+	if !due {
 		return "be-kept"
 	}
-	sess.mu.Lock()
-	sess.Closing = true
-	sess.mu.Unlock()
-	c.xidIndex.Delete(sess.XID)
-	c.sessions.Delete(c.makeSessionKeyV4(sess.MAC, sess.OuterVLAN, sess.InnerVLAN))
-	c.sessionIndex.Delete(sess.SessionID)
-	c.removeSessionFromIndexes(sess)
-	if sess.IPv4 != nil {
-		allocator.GetGlobalRegistry().ReleaseIP(sess.IPv4)
+	old := c.Ctx
+	ctx, cancel := context.WithCancel(context.Background())
+	c.Ctx = ctx
+	done := make(chan struct{})
+	go func() { c.cleanupSessions(); close(done) }()
+	deadline := time.Now().Add(30 * time.Second)
+	for w.live(s) != nil {
+		if time.Now().After(deadline) {
+			cancel()
+			<-done
+			c.Ctx = old
+			panic("reaper_did_not_take_a_due_session")
+		}
+		time.Sleep(200 * time.Microsecond)
 	}
-	if sess.IPv6Address != nil {
-		allocator.GetGlobalRegistry().ReleaseIANAByIP(sess.IPv6Address)
-	}
-	if sess.IPv6Prefix != nil {
-		allocator.GetGlobalRegistry().ReleasePDByPrefix(sess.IPv6Prefix)
-	}
-	for _, p := range c.dhcp4Providers {
-		p.ReleaseLease(sess.MAC.String())
-	}
-	c.deleteSessionCheckpoint(sess.SessionID)
+	cancel()
+	<-done
+	c.Ctx = old
 	return "be"
 }
 
